@@ -363,6 +363,9 @@ extra_fixed!(usize, 2);
 extra_fixed!(u128, 3);
 extra_fixed!(u64, 5);
 extra_fixed!(u16, 4);
+extra_fixed!(u64, 4);
+extra_fixed!(u64, 8);
+extra_fixed!(u8, 9);
 extra_fixed!(u8, 0);
 
 macro_rules! extra_dyn {
